@@ -22,7 +22,9 @@ fn log(db: &str, msg: &str) {
     if let Ok(path) = std::env::var("FAKE_LOG") {
         if let Ok(mut f) = std::fs::OpenOptions::new().append(true).create(true).open(path) {
             let t = std::time::SystemTime::now().duration_since(std::time::UNIX_EPOCH).unwrap().as_nanos();
-            let _ = writeln!(f, "{} {} {} {}", t, std::process::id(), db, msg);
+            // one write syscall per line (O_APPEND keeps lines of concurrent engines apart)
+            let line = format!("{} {} {} {}\n", t, std::process::id(), db, msg);
+            let _ = f.write_all(line.as_bytes());
         }
     }
 }
@@ -75,12 +77,17 @@ fn main() {
             Ok(v) => v,
             Err(_) => break,
         };
-        let sql = v.get("sql").and_then(|s| s.as_str()).unwrap_or("").to_string();
+        let full = v.get("sql").and_then(|s| s.as_str()).unwrap_or("").to_string();
         let n = bump();
-        log(&db, &format!("sql {} {}", n, hex(&sql)));
+        log(&db, &format!("sql {} {}", n, hex(&full)));
+        // generated files tag every SQL line with ` -- F<path>`: not part of the directive
+        let sql = full.split(" -- F").next().unwrap_or("").to_string();
         if sigkill_at != 0 && n == sigkill_at {
             log(&db, "sigkill");
             unsafe { kill(target, 9) };
+            // the CLI is gone: do not answer
+            std::thread::sleep(std::time::Duration::from_millis(200));
+            std::process::exit(0);
         }
         if sigint_at != 0 && n == sigint_at {
             log(&db, "sigint");
